@@ -30,6 +30,7 @@ def run(ctx):
     exe = build.harness("batch", ["batch.cc"], "shim")
     B.model_check_batch(ctx, ["ExportOnce", "Order", "NoPhantom", "DroppedNotExported", "NoLoss", "ShutdownComplete", "QueueBounded"],
                         live=False)
+    B.model_vs_monitor(ctx)
     lines, abnormal = B.explore(ctx, exe, B.batch_runs(ctx, focus="C01"))
     B.validate(ctx, "C01", lines, "batch")
 
